@@ -24,7 +24,7 @@ ASSUMPTIONS = ["the fault plan is enumerated completely per generated program (e
                "values stay in the exact domain up to the faulted step (otherwise the case is skipped)"]
 BUDGET_S = {"quick": 150, "thorough": 1500}
 
-PROFILE = dict(max_ops=9, alias_arrays=False, raise_=True, dead_code=False,
+PROFILE = dict(max_ops=9, alias_arrays=False, raise_=True, dead_code=False, call_in_bounds=True,
                extra_kinds=("call", "call", "call", "call", "real", "uvec"))
 
 
